@@ -152,6 +152,13 @@ Proof.
   change (q_sigma_mul all_off) with false. cbv iota. unfold is_int. cbn [Qnum Qden].
   rewrite Z.mod_1_r, Z.div_1_r. reflexivity.
 Qed.
+Definition code_sem (c : option Z) : Z := match c with None => 0%Z | Some n => n end.
+Lemma code_of_raw c : code_ok 3 c -> code_of (opt_code c) = code_sem c.
+Proof.
+  destruct c as [n|]; [|reflexivity]. intros [Hn _]. unfold code_of, opt_code.
+  destruct (render_nat n) eqn:E; [exfalso; revert E; apply render_nat_nonempty|]. rewrite <- E.
+  unfold parse_float. rewrite parse_float_render_nat by auto. cbn [Qnum Qden code_sem]. apply Z.div_1_r.
+Qed.
 Lemma code_ok_weaken c : code_ok 2 c -> code_ok 3 c.
 Proof. destruct c; simpl; auto. intros [? ?]. split; auto. lia. Qed.
 
@@ -162,7 +169,7 @@ Lemma position_value_roundtrip m time v bp bc sat0 satr x y z clk s1 s2 s3 sc f1
   position_record all_off m time (P_vals (String sat0 satr) x y z clk s1 s2 s3 sc f1 f2 f3 f4) =
   Some (mkR time (String sat0 satr) [pos_sem x; pos_sem y; pos_sem z] (clk_sem clk)
             [sig_sem bp mm_in_m s1; sig_sem bp mm_in_m s2; sig_sem bp mm_in_m s3]
-            (sig_sem bc (ps_in_s * c_light) sc) (String sat0 "")).
+            (sig_sem bc (ps_in_s * c_light) sc) (String sat0 "") [code_sem s1; code_sem s2; code_sem s3; code_sem sc]).
 Proof.
   intros Hv Hva Hbp Hbc H1 H2 H3 H4. unfold position_record. rewrite Hv, Hbp, Hbc.
   assert (Ev : match v with "a" => "G" ++ zfill 2 (lookup "sat" (P_vals (String sat0 satr) x y z clk s1 s2 s3 sc f1 f2 f3 f4))
@@ -181,6 +188,7 @@ Proof.
   change (lookup "sig_clk_bias" (P_vals (String sat0 satr) x y z clk s1 s2 s3 sc f1 f2 f3 f4)) with (opt_code sc).
   rewrite !pos_value_raw, clk_value_raw.
   rewrite !sigma_value_raw by auto using code_ok_weaken.
+  rewrite !code_of_raw by auto using code_ok_weaken.
   reflexivity.
 Qed.
 
@@ -358,7 +366,7 @@ Definition recs_of_bline (bp bc : Q) (t : string) (l : bline) : list rec :=
   | LP sat0 satr x y z clk s1 s2 s3 sc _ _ _ _ _ =>
       [mkR t (String sat0 satr) [pos_sem x; pos_sem y; pos_sem z] (clk_sem clk)
            [sig_sem bp mm_in_m s1; sig_sem bp mm_in_m s2; sig_sem bp mm_in_m s3]
-           (sig_sem bc (ps_in_s * c_light) sc) (String sat0 "")]
+           (sig_sem bc (ps_in_s * c_light) sc) (String sat0 "") [code_sem s1; code_sem s2; code_sem s3; code_sem sc]]
   | LOther _ _ => []
   end.
 
@@ -669,3 +677,41 @@ Proof.
          | |- _ <> _ => discriminate
          end.
 Qed.
+
+(* ============================================================ 8. statements as they appear in Props/C13.v *)
+Lemma position_record_roundtrip_l :
+  forall m time v bp bc sat0 satr x y z clk s1 s2 s3 sc f1 f2 f3 f4,
+    meta_get "version" m = Some (MStr v) -> v <> "a" ->
+    meta_num "base_posvel" m = Some bp -> meta_num "base_clkrate" m = Some bc ->
+    trimmed (String sat0 satr) = true -> (len (String sat0 satr) <= 3)%nat ->
+    fits_F 14 6 x -> fits_F 14 6 y -> fits_F 14 6 z -> fits_F 14 6 clk ->
+    code_ok 2 s1 -> code_ok 2 s2 -> code_ok 2 s3 -> code_ok 3 sc ->
+    flag_ok f1 -> flag_ok f2 -> flag_ok f3 -> flag_ok f4 ->
+    let line := render_P (String sat0 satr) x y z clk s1 s2 s3 sc f1 f2 f3 f4 in
+    len line = 80%nat /\ slice 0 1 line = "P" /\
+    parse_record spec_P line = P_vals (String sat0 satr) x y z clk s1 s2 s3 sc f1 f2 f3 f4 /\
+    position_record all_off m time (parse_record spec_P line) =
+    Some (mkR time (String sat0 satr) [pos_sem x; pos_sem y; pos_sem z] (clk_sem clk)
+              [sig_sem bp mm_in_m s1; sig_sem bp mm_in_m s2; sig_sem bp mm_in_m s3]
+              (sig_sem bc (ps_in_s * c_light) sc) (String sat0 "") [code_sem s1; code_sem s2; code_sem s3; code_sem sc]).
+Proof.
+  intros m time v bp bc sat0 satr x y z clk s1 s2 s3 sc f1 f2 f3 f4 Hv Hva Hbp Hbc K1 K2 K3 K4 K5 K6 K7 K8 K9 K10 K11 K12 K13 K14 line.
+  destruct (position_text_roundtrip _ _ _ _ _ _ _ _ _ _ _ _ _
+              (P_vals_fits _ _ _ _ _ _ _ _ _ _ _ _ _ K1 K2 K3 K4 K5 K6 K7 K8 K9 K10 K11 K12 K13 K14)) as [R1 [_ [R3 R4]]].
+  fold line in R1, R3, R4. repeat split; auto. rewrite R1. exact (position_value_roundtrip m time v bp bc _ _ _ _ _ _ _ _ _ _ _ _ _ _ Hv Hva Hbp Hbc K7 K8 K9 K10).
+Qed.
+
+Lemma position_record_cut_roundtrip_l :
+  forall sat x y z clk s1 s2 s3 sc f1 f2 f3 f4,
+    fits spec_P (P_vals sat x y z clk s1 s2 s3 sc f1 f2 f3 f4) ->
+    parse_record spec_P (rstrip (render_P sat x y z clk s1 s2 s3 sc f1 f2 f3 f4)) =
+    P_vals sat x y z clk s1 s2 s3 sc f1 f2 f3 f4.
+Proof. intros. apply position_text_roundtrip. assumption. Qed.
+
+Lemma epoch_spec_full_l :
+  forall st s1 s2 s3 s4 s5 s6 y mo d h mi n7,
+    sep_ok s1 -> sep_ok s2 -> sep_ok s3 -> sep_ok s4 -> sep_ok s5 -> sep_ok s6 ->
+    (0 <= y)%Z -> (0 <= mo < 100)%Z -> (0 <= d < 100)%Z -> (0 <= h < 100)%Z -> (0 <= mi < 100)%Z ->
+    (0 <= n7 < 1000000000)%Z ->
+    date_step spec_tables st (epoch_line s1 s2 s3 s4 s5 s6 y mo d h mi n7) = Some (set_time st (time_string y mo d h mi n7)).
+Proof. intros. apply epoch_spec_l; auto. Qed.
